@@ -19,5 +19,6 @@ Definition entry (sel : Z) (toks : list Z) : list Z :=
   | 104 => match run_dec dLawIn toks with Some l => eBool (law_plugins_all l) | None => bad_input end
   | 105 => match run_dec dLawIn toks with Some l => eBool (law_job_pipelined l) | None => bad_input end
   | 106 => match run_dec dLawIn toks with Some l => eBool (law_refused l) | None => bad_input end
+  | 107 => match run_dec dLawIn toks with Some l => eBool (law_guarantee l) | None => bad_input end
   | _ => bad_input
   end.
